@@ -44,10 +44,17 @@ impl ColumnIndex {
         let checksum = footer.get_u64();
         verify_checksum(checksum_type, index_data, checksum)?;
 
-        let mut indexes = Vec::with_capacity(length);
+        // The block count is not covered by the checksum: do not trust it for the allocation,
+        // and require that it matches the (checksummed) entries exactly.
+        let mut indexes = Vec::with_capacity(length.min(index_data.len()));
         for _ in 0..length {
             let index = BlockIndex::decode_length_delimited(&mut index_data)?;
             indexes.push(index);
+        }
+        if !index_data.is_empty() {
+            return Err(TracedStorageError::decode(
+                "failed to decode column index: block count does not match the entries",
+            ));
         }
 
         Ok(Self {
